@@ -13,12 +13,69 @@ ASSUME = [
 
 def model_and_behaviours(ctx, nsim_quick, nsim_thorough, depth=27):
     ctx.assumptions += ASSUME
-    ctx.tlc("ctfe", "MCCTFE", ctx.pick("CTFE.cfg", "CTFEBig.cfg"), timeout=3000)
+    # exhaustive: two front ends with their own clocks (set freely: forward, backward, apart) and signed-head memories
+    # over one backend, signer faults, refused backend calls, lost replies; and one front end with a longer clock
+    for cfg in ctx.pick(("CTFE.cfg", "CTFEOne.cfg"), ("CTFEBig.cfg", "CTFEOneBig.cfg")):
+        ctx.tlc("ctfe", "MCCTFE", cfg, timeout=3000)
+    # non-vacuity of STHVerifies: with the ordering defect switched on in the model (the tree head is remembered as
+    # signed before the signer has answered) TLC must find a served STH whose signature covers another head
+    r = ctx.tlc("ctfe", "MCCTFE", "CTFESignDefect.cfg", workers=4, timeout=600, expect_violation=True, count=False)
+    if not r.violated:
+        raise Infra("CTFESignDefect.cfg: TLC did not find the stale-signature behaviour in the defective model "
+                    "(STHVerifies would be vacuous)")
     r = ctx.tlc("ctfe", "MCCTFE", "CTFESim.cfg", simulate=ctx.pick(nsim_quick, nsim_thorough), depth=depth + 3, count=False)
     behs = r.records.get("BEH", [])
     if not behs:
         raise Infra("simulation exported no behaviours")
     return behs
+
+
+def concurrent_traces(ctx, prop):
+    """Concurrent clients of two front end instances under -race with staged overlaps (a backend call parked inside the
+    backend while further requests arrive, then failed); the Inv / Call / Ret history is validated by CTFETrace.tla."""
+    import os
+    out, outdir, _ = ctx.go_test("cctfe", run="TestConcurrent$", race=True, timeout=3000, name="concurrent",
+                                 env={"VERIF_TRACES": ctx.pick(8, 60), "VERIF_ROUNDS": ctx.pick(6, 10),
+                                      "VERIF_EPISODES": ctx.pick(4, 6), "VERIF_PROP": prop})
+    tr = os.path.join(outdir, "traces.ndjson")
+    if not os.path.exists(tr) or os.path.getsize(tr) == 0:
+        raise Infra("no concurrent trace recorded")
+    n = sum(1 for line in open(tr) if '"ev":"Reset"' in line)
+    r = ctx.tlc("ctfe", "CTFETrace", "CTFETrace.cfg", workers=1, env={"TRACE_FILE": tr}, count=False, check=False,
+                timeout=3000, label="trace", dfs=True)
+    stuck = r.records.get("STUCK", [])
+    if r.rc != 0 and not stuck and not r.violated:
+        raise Infra("trace validation failed to run (rc=%d)\n%s" % (r.rc, "\n".join(r.out.splitlines()[-25:])))
+    if stuck or r.violated:
+        import json
+        lines = open(tr).read().splitlines()
+        at = stuck[0]["line"] if stuck else len(lines)
+        ev = stuck[0]["event"] if stuck else {}
+        what = ("a concurrent history of requests to the real instances is not a behaviour of CTFE.tla: the event %s "
+                "does not follow from the state reached in backend order (or an invariant fails there)" % ev.get("ev", "?"))
+        fp = "trace:%s:%s" % (ev.get("op", ev.get("ev", r.violated)), ev.get("status", ev.get("method", "")))
+        if ev.get("ev") == "Ret":
+            # was the reply preceded by a backend call made for this request?
+            called = None
+            for line in lines[:at - 1]:
+                try:
+                    e = json.loads(line)
+                except ValueError:
+                    continue
+                if e.get("id") == ev.get("id") and e.get("ev") == "Call":
+                    called = e
+            if called is None:
+                fp += ":without-backend-call-of-its-own"
+                what = ("%s answered %s although no backend call was made for this request and no successful call made "
+                        "for an overlapping request explains the reply (a reply served from state left behind by earlier "
+                        "requests while the backend call it waited for failed)" % (ev.get("op"), ev.get("status")))
+            else:
+                fp += ":call=" + str(called.get("fault"))
+                what = ("%s answered %s; its backend call (outcome: %s) in the state the backend was in demands another "
+                        "reply according to CTFE.tla" % (ev.get("op"), ev.get("status"), called.get("fault")))
+        ctx.violation(fp, what, {"stuck": stuck, "violated": r.violated, "trace_window": lines[max(0, at - 40):at + 1]})
+    else:
+        ctx.traces += n
 
 
 def entry_shapes(ctx, prop):
